@@ -307,7 +307,7 @@ impl Encoder for Codec {
 
         let max_out_size = self.max_out_size.get();
         let max_size = if max_out_size != 0 {
-            max_out_size
+            min(max_out_size, MAX_PACKET_SIZE)
         } else {
             MAX_PACKET_SIZE
         };
